@@ -15,19 +15,19 @@ import (
 // for all listed fields on entry. The methods are enumerated from the current source on every run, so a new
 // setter that forgets to establish the invariant fails without any contract having been written for it.
 type TypeInv struct {
-	Type   string
-	Pkg    string
-	Props  []string
-	Fields []string
-	Stable []string // monitor: configuration fields that no function under contract changes
-	Lock   string // monitor: name of the mutex field that protects Fields ("" = plain type invariant)
-	Inv    []*Clause
-	Skip   map[string]string // method -> reason (listed in the evidence as unverified mutators)
-	Only   map[string]bool   // if non-empty: restrict to these methods
+	Type    string
+	Pkg     string
+	Props   []string
+	Fields  []string
+	Stable  []string // monitor: configuration fields that no function under contract changes
+	Lock    string   // monitor: name of the mutex field that protects Fields ("" = plain type invariant)
+	Inv     []*Clause
+	Skip    map[string]string // method -> reason (listed in the evidence as unverified mutators)
+	Only    map[string]bool   // if non-empty: restrict to these methods
 	Foreign map[string]string // function (not a mutator of the sweep) -> reason it may assign the fields
-	File   string
-	Line   int
-	found  []string
+	File    string
+	Line    int
+	found   []string
 }
 
 func substSpec(e SExpr, name string, repl SExpr) SExpr {
